@@ -379,6 +379,49 @@ def specs(tier):
     return out
 
 
+def part_txt_columns(ctx, shard):
+    """savetxt of several arrays in different units, loadtxt with every choice and order of columns: each returned array
+    carries the numbers AND the unit of the column it was read from"""
+    import os
+    import tempfile
+
+    world.reset_world()
+    cols = [("km/s", [1.5, 2.5, 3.5]), ("kpc", [10.0, 20.0, 30.0]), ("g", [0.25, 0.5, 0.75]), ("degC", [5.0, 15.0, 25.0])]
+    arrays = [unyt_array(np.array(v), u) for u, v in cols]
+    for delim in shard:
+        fd, fn = tempfile.mkstemp(prefix="c11cols_", suffix=".txt", dir="/tmp")
+        os.close(fd)
+        try:
+            unyt.savetxt(fn, arrays, delimiter=delim)
+            n = len(cols)
+            choices = [None]
+            for k in (1, 2, 3):
+                choices += list(itertools.permutations(range(n), k))
+            choices += [(-1,), (-1, 0), (0, -2), (-3, -1)]
+            for uc in choices:
+                ctx.count("evaluations")
+                case = {"part": "txt-columns", "delimiter": delim, "usecols": list(uc) if uc else None}
+                base = f"C11|txt-columns|usecols={'all' if uc is None else ('negative' if any(c < 0 for c in uc) else ('ascending' if list(uc) == sorted(uc) else 'reordered'))}"
+                try:
+                    r = unyt.loadtxt(fn, delimiter=delim, usecols=uc) if uc is not None else unyt.loadtxt(fn, delimiter=delim)
+                except Exception as e:  # noqa: BLE001
+                    ctx.violation(base + f"|mode=loadtxt-fails:{type(e).__name__}", case, "arrays", str(e)[:100])
+                    continue
+                got = [r] if isinstance(r, unyt_array) else list(r)
+                want_idx = list(range(n)) if uc is None else [c % n for c in uc]
+                ctx.decided(("txt-columns", delim, uc))
+                if len(got) != len(want_idx):
+                    ctx.violation(base + "|mode=wrong-number-of-columns", case, len(want_idx), len(got))
+                    continue
+                for g, wi in zip(got, want_idx):
+                    wu, wv = cols[wi]
+                    if not np.allclose(np.asarray(g.d, dtype=float), wv, rtol=1e-15) or g.units != Unit(wu) or str(g.units.expr) != str(Unit(wu).expr):
+                        ctx.violation(base + "|mode=column-has-another-column's-unit-or-numbers", case, {"unit": wu, "values": wv}, {"unit": str(g.units), "values": np.asarray(g.d).tolist()})
+                        break
+        finally:
+            os.remove(fn)
+
+
 def shard_fn(ctx, shard):
     for kind, regkind, unit, hops in shard:
         one_case(ctx, kind, regkind, unit, hops)
@@ -394,6 +437,7 @@ def run(ctx):
     cases = [(k, r, u, hs) for (k, r, u) in sp for hs in hopseqs]
     shards = [cases[i::128] for i in range(128)]
     harness.pmap(ctx, shard_fn, shards)
+    harness.pmap(ctx, part_txt_columns, [["\t"], [","], [" "]])
     return {
         "coverage": {
             "rule": "one evaluation = object x hop sequence x order, built and run from a reset world; a decided case = one follow-up operation "
@@ -417,5 +461,8 @@ def run(ctx):
 
 def replay(case):
     ctx = harness.Ctx(PROPERTY, "quick", 0)
+    if case.get("part") == "txt-columns":
+        part_txt_columns(ctx, [case["delimiter"]])
+        return list(ctx.violations.items())
     one_case(ctx, case["kind"], case["registry"], case["unit"], tuple(case["hops"]))
     return list(ctx.violations.items())
